@@ -28,8 +28,17 @@ def shapes():
   def s_big(r): r.add_float_param('x', -1e9, 1e9); r.add_int_param('n', 0, 1000)
   def s_tiny(r): r.add_float_param('x', 1e-9, 1e-8); r.add_discrete_param('d', [float(v) for v in range(12)])
   def s_bin(r): r.add_bool_param('b0'); r.add_bool_param('b1'); r.add_bool_param('b2')
+  # bounds that are not float32 numbers: float32(high) > high, float32(low) < low (designers computing in float32 must still land inside)
+  def s_f32edge(r): r.add_float_param('x', 1000000.1, 1000000.3); r.add_float_param('y', -0.3, 0.3)
+  # log-scaled ranges whose product / ratio leaves the double range
+  def s_hugelog(r):
+    from vizier import pyvizier as vz
+    r.add_float_param('x', 1e150, 1e200, scale_type=vz.ScaleType.LOG); r.add_float_param('y', 1e150, 1e200, scale_type=vz.ScaleType.REVERSE_LOG)
+  def s_tinylog(r):
+    from vizier import pyvizier as vz
+    r.add_float_param('x', 1e-200, 1e-150, scale_type=vz.ScaleType.LOG); r.add_float_param('y', 1e-200, 1e-150, scale_type=vz.ScaleType.REVERSE_LOG)
   return {'unit': s_unit, 'neg': s_neg, 'log': s_log, 'int': s_int, 'disc': s_disc, 'cat': s_cat, 'mixed': s_mixed, 'single': s_single,
-          'bool': s_bool, 'big': s_big, 'tiny': s_tiny, 'bin': s_bin}
+          'bool': s_bool, 'big': s_big, 'tiny': s_tiny, 'bin': s_bin, 'f32edge': s_f32edge, 'hugelog': s_hugelog, 'tinylog': s_tinylog}
 
 
 CONTINUOUS = {'unit', 'neg', 'log', 'big'}
@@ -65,7 +74,7 @@ def algorithms():
   }
   try:
     from vizier._src.algorithms.designers import cmaes
-    algos['CMA_ES'] = dict(f=lambda p, s: cmaes.CMAESDesigner(p, seed=s), randomised=True, restartable=True, only={'neg', 'log'})
+    algos['CMA_ES'] = dict(f=lambda p, s: cmaes.CMAESDesigner(p, seed=s), randomised=True, restartable=True, only={'neg', 'log', 'f32edge'})
   except Exception:  # pylint: disable=broad-except
     pass
   return algos
